@@ -1,6 +1,7 @@
 package main
 
 import (
+	"go/token"
 	"fmt"
 	"go/types"
 	"strings"
@@ -579,6 +580,14 @@ func (fr *Frame) calleeEnvDyn(ci *calleeInfo, fc *FuncContract, args []Term, arg
 			names = append(names, fmt.Sprintf("a%d", i))
 		}
 	}
+	// a closure's contract may name its captured variables: bind them to the cells' contents
+	if ci != nil && ci.closure != nil && ci.fn != nil {
+		for i, fv := range ci.fn.FreeVars {
+			if pt, ok := fv.Type().Underlying().(*types.Pointer); ok && i < len(ci.closure.binds) {
+				env.vars[fv.Name()] = Binding{fr.c.load(st, ci.closure.binds[i], pt.Elem()), pt.Elem()}
+			}
+		}
+	}
 	sig, _ := fr.c.V.signatureOf(fc)
 	for i, a := range args {
 		n := names[i]
@@ -944,10 +953,16 @@ func (fr *Frame) goSpawn(x *ssa.Go) {
 		args = append(args, fr.val(a))
 		argTypes = append(argTypes, a.Type())
 	}
+	fr.curPos = x.Pos()
+	fr.curIns = x
+	fr.callSpecAsserts(ci, fr.callOrdinal(ci.key), args, argTypes)
 	fr.ghostAtCall(ci, 0, "before", args)
 	defer fr.ghostAtCallAfter(ci, 0, args, nil)
 	if ci.fc != nil {
-		env := fr.calleeEnv(ci, ci.fc, args, argTypes, fr.st)
+		// a new goroutine holds no locks: its precondition is evaluated with an empty lock set
+		gst := fr.st.clone()
+		gst.ghosts["held"] = Term{"((as const (Array Ptr Bool)) false)", "(Array Ptr Bool)"}
+		env := fr.calleeEnv(ci, ci.fc, args, argTypes, gst)
 		for _, r := range ci.fc.Requires {
 			t, err := env.evalBool(r.E)
 			if err != nil {
@@ -1226,6 +1241,9 @@ func (fr *Frame) curEnv() *Env {
 					}
 					continue
 				}
+				if b, ok := fr.cellVarNow(dr, fr.st); ok {
+					return b, true
+				}
 				if t, ok := fr.tryVal(dr.X); ok {
 					return Binding{t, dr.X.Type()}, true
 				}
@@ -1235,6 +1253,34 @@ func (fr *Frame) curEnv() *Env {
 		return Binding{}, false
 	}
 	return env
+}
+
+// cellVarNow: the debug ref of a variable that lives in a cell (a captured variable, or a local
+// captured by a closure) records one particular load of the cell; a source-level name means the
+// variable's CURRENT content, so the cell is read again in the given state.
+func (fr *Frame) cellVarNow(dr *ssa.DebugRef, st *State) (Binding, bool) {
+	if dr.IsAddr {
+		return Binding{}, false
+	}
+	u, ok := dr.X.(*ssa.UnOp)
+	if !ok || u.Op != token.MUL {
+		return Binding{}, false
+	}
+	switch cell := u.X.(type) {
+	case *ssa.FreeVar:
+		for i, fv := range fr.fn.FreeVars {
+			if fv == cell {
+				return Binding{fr.c.load(st, fr.freeVars[i], u.Type()), u.Type()}, true
+			}
+		}
+	case *ssa.Alloc:
+		if cell.Comment == debugRefName(dr) {
+			if t, ok := fr.vals[cell]; ok {
+				return Binding{fr.c.load(st, t, u.Type()), u.Type()}, true
+			}
+		}
+	}
+	return Binding{}, false
 }
 
 // typeNameOf resolves T or pkg.T (a struct type name, not a variable) in a modifies clause.
